@@ -84,7 +84,7 @@ func c11Build(x *mc.Exec, malformed bool) (*c11Tree, string) {
 	metaU := moov.Children[0]
 	// a child of the Canon metadata box whose content is too short for its type (sizes stay honest)
 	degenerate := false
-	if dg := x.Choose("degenerate-child", 10); dg > 0 {
+	if dg := x.Choose("degenerate-child", 13); dg > 0 {
 		degenerate = true
 		set := func(typ string, n int) {
 			for _, c := range metaU.Children {
@@ -115,6 +115,19 @@ func c11Build(x *mc.Exec, malformed bool) (*c11Tree, string) {
 			set("CCTP", 3)
 		case 9:
 			set("THMB", 5)
+		case 10, 11, 12: // a CMT block whose first-directory offset points into its own 8-byte header (hostile content, honest sizes)
+			for _, c := range metaU.Children {
+				if c.Type == []string{"CMT1", "CMT2", "CMT4"}[dg-10] && len(c.Payload.B) >= 8 {
+					pb := append([]byte{}, c.Payload.B...)
+					v := []uint32{4, 0, 7}[dg-10]
+					if pb[0] == 'M' {
+						binary.BigEndian.PutUint32(pb[4:], v)
+					} else {
+						binary.LittleEndian.PutUint32(pb[4:], v)
+					}
+					c.Payload = &gen.Doc{B: pb}
+				}
+			}
 		}
 	}
 	// the CMT boxes in another arrangement (each box still says what it is: CMTn)
@@ -557,7 +570,7 @@ func init() {
 			}
 			return []mc.Space{
 				{Name: "well-formed-trees", H: c11Harness(false), Bound: b, Isolate: true,
-					Rule: "canonical CR3 box tree (ftyp, moov{uuid-meta{CNCV,CCTP{CCDT,CCDT},CTBO,free,CMT1-4,THMB},mvhd,trak{tkhd,mdia{mdhd,hdlr}}}, uuid-xpacket, uuid-preview{PRVW}, mdat); deviations: xpacket/preview size menus, skeleton variants (free / unknown top-level box, unknown children, 64-bit uuid sizes), an unknown box (zzzz, uuid with a foreign usertype in 32- and 64-bit form, skip; inside moov also a uuid too short for its usertype and a preview uuid without PRVW) inserted at 7 places x 3 sizes, a trailing 8/16-byte box, any one box in 64-bit size form, ftyp with 0/1/8/9/12/40 compatible brands, a metadata child with content too short for its type (CNCV, CTBO, CMT3, CCTP, THMB; sizes honest), the CMT boxes in 5 other arrangements (one missing, reordered, duplicated, only CMT4); x both byte orders x 5 Exif / 3 XMP / 3 preview callback behaviours"},
+					Rule: "canonical CR3 box tree (ftyp, moov{uuid-meta{CNCV,CCTP{CCDT,CCDT},CTBO,free,CMT1-4,THMB},mvhd,trak{tkhd,mdia{mdhd,hdlr}}}, uuid-xpacket, uuid-preview{PRVW}, mdat); deviations: xpacket/preview size menus, skeleton variants (free / unknown top-level box, unknown children, 64-bit uuid sizes), an unknown box (zzzz, uuid with a foreign usertype in 32- and 64-bit form, skip; inside moov also a uuid too short for its usertype and a preview uuid without PRVW) inserted at 7 places x 3 sizes, a trailing 8/16-byte box, any one box in 64-bit size form, ftyp with 0/1/8/9/12/40 compatible brands, a metadata child with content too short for its type (CNCV, CTBO, CMT3, CCTP, THMB; sizes honest) or a CMT block whose first-directory offset is 0, 4 or 7, the CMT boxes in 5 other arrangements (one missing, reordered, duplicated, only CMT4); x both byte orders x 5 Exif / 3 XMP / 3 preview callback behaviours"},
 				{Name: "overstated-children", H: c11Harness(true), Bound: b, Isolate: true,
 					Rule: "the same trees with any one box declaring a size off by {+1,+8,-1,-8,+64Ki,+2^31-1,+2^31,+2^32-1,+2^40}, optionally together with its parent (same amount or 64 more) or parent and grandparent (cooperating sites; the top-level box stays honest): no callback and no call may leave the stream beyond the end of the box being handled or of the enclosing top-level box; trivial = no overstatement"},
 			}
